@@ -33,11 +33,12 @@ type hchanges struct {
 }
 
 type inst struct {
-	h    *utils.History
-	A, B int
+	h       *utils.History
+	A, B, C int
 
 	// reference model
 	baseA, baseB int        // fold of changes already dropped from the retained window
+	baseC        int
 	held         []hchanges // retained heights, ascending
 	height       uint32
 	view         uint32 // seek height (== height when not seeked)
@@ -70,18 +71,48 @@ func (in *inst) appendReal(height uint32, c chg) {
 		ori := in.B
 		v := c.n
 		in.h.Append(height, func() { in.B = v }, func() { in.B = ori })
+	case 'c': // relative change on C
+		d := c.n
+		in.h.Append(height, func() { in.C += d }, func() { in.C -= d })
+	case 'd': // absolute change on C, previous value captured at Append time
+		ori := in.C
+		v := c.n
+		in.h.Append(height, func() { in.C = v }, func() { in.C = ori })
 	}
 }
 
 func apply(a, b int, cs []chg) (int, int) {
 	for _, c := range cs {
-		if c.v == 'a' {
+		switch c.v {
+		case 'a':
 			a += c.n
-		} else {
+		case 'b':
 			b = c.n
 		}
 	}
 	return a, b
+}
+
+func applyC(cv int, cs []chg) int {
+	for _, c := range cs {
+		switch c.v {
+		case 'c':
+			cv += c.n
+		case 'd':
+			cv = c.n
+		}
+	}
+	return cv
+}
+
+func (in *inst) expectedC() int {
+	cv := in.baseC
+	for _, hc := range in.held {
+		if hc.height <= in.view {
+			cv = applyC(cv, hc.ch)
+		}
+	}
+	return applyC(cv, in.temp)
 }
 
 // expected returns the model's variables for the current view.
@@ -100,8 +131,12 @@ func (in *inst) Ops() []string {
 	var ops []string
 	seeked := in.view != in.height
 	if !seeked {
-		for _, c := range []string{"", "a1", "b5", "a1,a3", "b5,b7", "a1,b5", "b7,a3"} {
+		for _, c := range []string{"", "a1", "b5", "a1,a3", "b5,b7", "a1,b5", "b7,a3", "c2,d9"} {
 			ops = append(ops, "blk:"+c)
+		}
+		// a temporary change arriving between two appends of the same (uncommitted) height
+		if len(in.temp) == 0 {
+			ops = append(ops, "blkt:a1|a1|a3")
 		}
 		if len(in.temp) == 0 {
 			ops = append(ops, "tmp:a1", "tmp:b7")
@@ -146,9 +181,34 @@ func (in *inst) Apply(op string) *mc.Fail {
 		in.temp = nil
 		if len(in.held) >= capacity {
 			in.baseA, in.baseB = apply(in.baseA, in.baseB, in.held[0].ch)
+			in.baseC = applyC(in.baseC, in.held[0].ch)
 			in.held = in.held[1:]
 		}
 		in.held = append(in.held, hchanges{height: h, ch: cs})
+		in.height = h
+		in.view = h
+	case "blkt":
+		parts := strings.Split(arg, "|")
+		h := in.height + 1
+		c1, tc, c2 := parseChanges(parts[0]), parseChanges(parts[1]), parseChanges(parts[2])
+		for _, c := range c1 {
+			in.appendReal(h, c)
+		}
+		for _, c := range tc {
+			in.appendReal(0, c)
+		}
+		in.h.Commit(in.height) // executes the temporary change
+		for _, c := range c2 {
+			in.appendReal(h, c) // must undo the temporary change first
+		}
+		in.h.Commit(h)
+		in.temp = nil
+		if len(in.held) >= capacity {
+			in.baseA, in.baseB = apply(in.baseA, in.baseB, in.held[0].ch)
+			in.baseC = applyC(in.baseC, in.held[0].ch)
+			in.held = in.held[1:]
+		}
+		in.held = append(in.held, hchanges{height: h, ch: append(append([]chg{}, c1...), c2...)})
 		in.height = h
 		in.view = h
 	case "tmp":
@@ -183,6 +243,7 @@ func (in *inst) Apply(op string) *mc.Fail {
 		in.height = k
 		in.view = k
 		in.A, in.B = in.expected()
+		in.C = in.expectedC()
 	case "seek":
 		d, _ := strconv.Atoi(arg)
 		k := in.height - uint32(d)
@@ -192,6 +253,9 @@ func (in *inst) Apply(op string) *mc.Fail {
 		in.view = k
 	}
 	ea, eb := in.expected()
+	if ec := in.expectedC(); in.C != ec {
+		return mc.Failf("C20|state-mismatch|mixed-relative-then-absolute|after="+class, "after %s: C=%d, fold of changes at or below height %d gives %d (a block held a relative change followed by an absolute change with the pre-block value captured)", op, in.C, in.view, ec)
+	}
 	if in.A != ea || in.B != eb {
 		return mc.Failf("C20|state-mismatch|after="+class, "after %s: implementation (A=%d,B=%d) != fold of changes at or below height %d (A=%d,B=%d)", op, in.A, in.B, in.view, ea, eb)
 	}
@@ -203,7 +267,7 @@ func (in *inst) Apply(op string) *mc.Fail {
 
 func (in *inst) Digest() string {
 	var sb strings.Builder
-	fmt.Fprintf(&sb, "A%d B%d z%v v%d t%v|", in.A, in.B, in.height == 0, in.height-in.view, in.temp)
+	fmt.Fprintf(&sb, "C%d A%d B%d z%v v%d t%v|", in.C, in.A, in.B, in.height == 0, in.height-in.view, in.temp)
 	for _, hc := range in.held {
 		fmt.Fprintf(&sb, "%v;", hc.ch)
 	}
